@@ -1,7 +1,14 @@
 """C10 - lazy stepping. Proof: coq/Props/C10.v. Tie: trace validation - every BEGIN observed with lazy_stepping=True must pass the model lazy guard."""
-from .. import common, sched_check, monitors
+from .. import common, sched_check, monitors, gen
 
-KINDS = ['guard_lazy']
+KINDS = ['guard_lazy', 'tables_succ']
+GEN_OPTS = {'groups': True, 'shifts': (1, 2, 2, 3)}
+
+
+def case_gen(rng, k):
+    # a third of the scenarios: producers joined to slow consumers by a single plain / time-shifted / weak connection
+    if k % 3 == 1: return gen.gen_lazy_case(rng)
+    return gen.gen_case(rng, **GEN_OPTS)
 
 
 def nontrivial(case, run, val):
@@ -29,7 +36,7 @@ def run(out, info, tier, seed):
         'assumed of asyncio: a task runs atomically between suspensions; futures wake their waiters (wake-up liveness is checked by the quiescence test)',
         'theorem premise static_ok (shape facts; the ancestors table dominates every trigger path) is checked per scenario by comparing the model-built tables with the implementation, not yet discharged by a closure theorem']
     out.assumptions = ['simulators are an oracle: any reply sequence (event list); delays that are compared have equal shape (convex group scenarios)']
-    sched_check.sched_property(out, info, tier, seed, 'C10', KINDS, monitors.P_C10, gen_opts={'groups': True, 'shifts': (1, 2, 2, 3)},
+    sched_check.sched_property(out, info, tier, seed, 'C10', KINDS, monitors.P_C10, gen_opts=GEN_OPTS, case_gen=case_gen,
                                ncases=(110, 1500), variants=[(True, True), (True, False)], nontrivial=nontrivial, features=features,
                                known_match=None, hyp=None,
                                extra_obligations=[('Sched.Inv (invariant preserved by every event)', 'Sched/Inv'),
